@@ -21,12 +21,13 @@ CTYPE = {"int": "int", "long": "long", "double": "double", "short": "short", "si
          "uint": "unsigned int", "float": "float", "bool": "bool"}
 INTLIKE = ("int", "long", "short", "size_t", "uint", "enum")
 FLOATLIKE = ("double", "float")
-LISTKINDS = ("ilist", "dlist", "strlist", "vec", "ilist_inout")
-ELEM = {"ilist": "int", "dlist": "double", "strlist": "cstr", "vec": "int", "ilist_inout": "int"}
+LISTKINDS = ("ilist", "dlist", "strlist", "vec", "dvec", "ilist_inout")
+ELEM = {"ilist": "int", "dlist": "double", "strlist": "cstr", "vec": "int", "dvec": "double", "ilist_inout": "int"}
+DIMKINDS = ("idim_out", "ddim_out")
 
 
 def base_of(kind):
-    if kind in LISTKINDS or kind in ("pt_out", "dvec_out"):
+    if kind in LISTKINDS or kind in ("pt_out", "dvec_out") or kind in DIMKINDS:
         return kind
     for suf in ("_out", "_inout"):
         if kind.endswith(suf):
@@ -35,12 +36,13 @@ def base_of(kind):
 
 
 class P:
-    def __init__(self, kind, name, default=None, cls=None, of=None):
+    def __init__(self, kind, name, default=None, cls=None, of=None, dims=None):
         self.kind = kind
         self.name = name
         self.default = default
         self.cls = cls          # class name for kind "cls"
         self.of = of            # implied: name of the list parameter whose size this is
+        self.dims = dims        # idim_out / ddim_out: extents of +dimension(...), expressions over int parameters
 
     @property
     def intent(self):
@@ -96,6 +98,10 @@ class P:
             s = "char **%s%s" % (n, a(" +intent(in)"))
         elif k == "vec":
             s = "const std::vector<int> &%s" % n
+        elif k == "dvec":
+            s = "const std::vector<double> &%s" % n
+        elif k in DIMKINDS:
+            s = "%s *%s%s" % ("int" if k == "idim_out" else "double", n, a(" +intent(out)+dimension(%s)" % ",".join(self.dims)))
         elif k == "dvec_out":
             s = "std::vector<double> &%s%s" % (n, a(" +intent(out)"))
         elif k == "implied":
@@ -124,7 +130,7 @@ RESULT_DECL = {"void": "void", "int": "int", "long": "long", "double": "double",
 
 
 class F:
-    def __init__(self, name, result, params, cls=None, static=False, ctor=False, label=None, rescls=None):
+    def __init__(self, name, result, params, cls=None, static=False, ctor=False, label=None, rescls=None, resdims=None):
         self.name = name
         self.result = result      # see module docstring
         self.params = params
@@ -133,6 +139,7 @@ class F:
         self.ctor = ctor
         self.label = label or name
         self.rescls = rescls      # class of a clsptr_res / clsref_res result
+        self.resdims = resdims    # idim_res: extents of the +dimension(...) of the int * result
 
     def decl(self, language):
         args = ", ".join(p.decl(language) for p in self.params)
@@ -144,6 +151,8 @@ class F:
             res = "%s *" % self.rescls
         elif self.result == "clsref_res":
             res = "const %s &" % self.rescls
+        elif self.result == "idim_res":
+            return "int *%s(%s) +dimension(%s)" % (self.name, args, ",".join(self.resdims))
         else:
             res = RESULT_DECL[self.result]
         return "%s%s %s(%s)" % ("static " if self.static else "", res, self.name, args)
@@ -157,9 +166,25 @@ RESULT_VALUE = {"int": 7, "long": 8, "double": 2.5, "bool": True, "cstr": "rvc",
                 "pt": (70, 0.5), "ivec": [2, 4, 6], "clsptr_res": 77, "clsref_res": 78}
 
 
-def out_value(p, idx, inval=None):
+def dim_total(dims, env):
+    """number of elements of +dimension(dims) for the argument values env, computed from the declaration"""
+    n = 1
+    for e in dims:
+        n *= int(eval(e, {"__builtins__": {}}, dict(env)))
+    return n
+
+
+def c_total(dims):
+    return "*".join("(%s)" % e for e in dims)
+
+
+def out_value(p, idx, inval=None, env=None):
     """value the subject library stores into an out / inout parameter (idx = position in the parameter list)"""
     b = p.base()
+    if p.kind == "idim_out":
+        return [100 + i for i in range(dim_total(p.dims, env))]
+    if p.kind == "ddim_out":
+        return [i + 0.5 for i in range(dim_total(p.dims, env))]
     if p.kind == "ilist_inout":
         return [2 * int(x) for x in inval]
     if p.kind == "pt_out":
@@ -221,6 +246,8 @@ def _trace_stmt(f, language):
             st.append('SUBJ_TR("%s"); %s(%s, %s);' % (sep, fn, n, size))
         elif b == "vec":
             st.append('SUBJ_TR("%s"); subj_ilist(%s.empty() ? (const int *) 0 : &%s[0], (int) %s.size());' % (sep, n, n, n))
+        elif b == "dvec":
+            st.append('SUBJ_TR("%s"); subj_dlist(%s.empty() ? (const double *) 0 : &%s[0], (int) %s.size());' % (sep, n, n, n))
         elif b == "pt":
             st.append('SUBJ_TR("%s%%d/%%.6g", %s->x, %s->y);' % (sep, n, n))
         elif b == "ptref":
@@ -256,6 +283,10 @@ def _body(f, language):
             lines.append("%s->x = %d; %s->y = %r;" % (p.name, v[0], p.name, v[1]))
         elif p.kind == "dvec_out":
             lines.append("%s.clear(); %s.push_back(0.5); %s.push_back(1.5);" % (p.name, p.name, p.name))
+        elif p.kind == "idim_out":
+            lines.append("{ int i_; for (i_ = 0; i_ < %s; i_++) %s[i_] = 100 + i_; }" % (c_total(p.dims), p.name))
+        elif p.kind == "ddim_out":
+            lines.append("{ int i_; for (i_ = 0; i_ < %s; i_++) %s[i_] = i_ + 0.5; }" % (c_total(p.dims), p.name))
         elif p.intent == "inout":
             lines.append("*%s = *%s + 1;" % (p.name, p.name))
         elif p.intent == "out":
@@ -269,7 +300,7 @@ def _body(f, language):
     elif f.name == "getflag":
         lines.append("return flag;")
     elif f.result != "void":
-        v = RESULT_VALUE[f.result]
+        v = RESULT_VALUE.get(f.result)
         if f.result == "bool":
             lines.append("return %s;" % ("true" if language != "c" else "1"))
         elif f.result == "cstr":
@@ -280,6 +311,8 @@ def _body(f, language):
             lines.append("return GREEN;")
         elif f.result == "pt":
             lines.append("Pt r_; r_.x = %d; r_.y = %r; return r_;" % v)
+        elif f.result == "idim_res":
+            lines.append("static int t_[8192]; { int i_; for (i_ = 0; i_ < %s; i_++) t_[i_] = 200 + i_; } return t_;" % c_total(f.resdims))
         elif f.result == "ivec":
             lines.append("std::vector<int> r_; r_.push_back(2); r_.push_back(4); r_.push_back(6); return r_;")
         elif f.result in ("clsptr_res", "clsref_res"):
@@ -393,14 +426,42 @@ class PyLib:
 
 
 # ---------------------------------------------------------------------------- generation
-NO_DEFAULT_WITH = ("string_out", "dvec_out", "pt_out", "vec", "ilist_inout")
+NO_DEFAULT_WITH = ("string_out", "dvec_out", "pt_out", "vec", "dvec", "ilist_inout", "idim_out", "ddim_out")
+
+EXTENT_FORMS = ["{a}", "{a}+1", "2", "{a}*2", "{a}+{b}", "({a}+1)", "3", "{b}"]
+
+
+def rand_dims(r, names):
+    """extents of a +dimension: rank 1..3, sums / products / constants over the int parameters `names`"""
+    rank = r.choice([1, 2, 2, 3])
+    dims = []
+    for _ in range(rank):
+        a, b = r.choice(names), r.choice(names)
+        dims.append(r.choice(EXTENT_FORMS).format(a=a, b=b))
+    return dims
+
+
+def rand_dim_function(r, language, name):
+    """a function with a list-mode intent(out) argument or pointer result whose size is an expression over
+    its int arguments; the library writes position dependent values so that a wrong size shows"""
+    names = r.choice([["n"], ["nrow", "ncol"], ["n", "m", "k"]])
+    params = [P("int", n) for n in names]
+    if r.random() < 0.3:
+        params.insert(r.randrange(len(params) + 1), P(r.choice(["double", "bool", "cstr"]), "x"))
+    if r.random() < 0.4:
+        return F(name, "idim_res", params, resdims=rand_dims(r, names))
+    k = r.choice(["idim_out", "ddim_out"])
+    params.insert(r.randrange(len(params) + 1), P(k, "out", dims=rand_dims(r, names)))
+    if r.random() < 0.3:
+        params.append(P(r.choice(DIMKINDS), "out2", dims=rand_dims(r, names)))
+    return F(name, r.choice(["void", "int"]), params)
 
 
 def rand_param(r, language, idx, cls=None, allow=("in", "out", "inout")):
     """one parameter (a list-mode array brings its implied size parameter along)"""
     kinds = ["int", "int", "long", "double", "bool", "cstr", "short", "size_t", "uint", "float", "ilist", "dlist", "strlist"]
     if language != "c":
-        kinds += ["string", "string", "enum", "pt", "ptref", "vec"]
+        kinds += ["string", "string", "enum", "pt", "ptref", "vec", "dvec"]
         if cls:
             kinds.append("cls")
     if "out" in allow:
@@ -493,6 +554,22 @@ def fixed_cxx(name):
         F("pout", "void", [P("pt_out", "p")]),
         F("pboth", "int", [P("pt", "p"), P("pt_out", "q"), P("int_out", "o")]),
         F("nextc", "enum", [P("enum", "c")]),
+        # multi-extent +dimension expressions: list-mode intent(out) arguments and pointer results
+        F("ramp", "void", [P("int", "n"), P("idim_out", "out", dims=["n"])]),
+        F("edge", "void", [P("int", "n"), P("idim_out", "out", dims=["n+1"])]),
+        F("border", "void", [P("int", "nrow"), P("int", "ncol"), P("idim_out", "out", dims=["nrow+1", "ncol"])]),
+        F("cube", "int", [P("int", "n"), P("ddim_out", "out", dims=["2", "n", "n+1"])]),
+        F("table", "idim_res", [P("int", "nrow"), P("int", "ncol")], resdims=["nrow+1", "ncol"]),
+        F("table3", "idim_res", [P("int", "n"), P("int", "m")], resdims=["n+m", "2", "m+1"]),
+        # overload sets distinguished only by list / vector element type, and scalar versus list
+        F("total", "double", [P("ilist", "v"), P("implied", "n", of="v")], label="total#0"),
+        F("total", "double", [P("dlist", "v"), P("implied", "n", of="v")], label="total#1"),
+        F("vtot", "double", [P("vec", "v")], label="vtot#0"),
+        F("vtot", "double", [P("dvec", "v")], label="vtot#1"),
+        F("mix", "int", [P("int", "x")], label="mix#0"),
+        F("mix", "int", [P("ilist", "x"), P("implied", "n", of="x")], label="mix#1"),
+        F("mixv", "int", [P("dvec", "x"), P("int", "k", default=2)], label="mixv#0"),
+        F("mixv", "int", [P("double", "x")], label="mixv#1"),
         F("getobj", "clsptr_res", [], rescls=C),
         F("getref", "clsref_res", [P("int", "i")], rescls=C),
         # overload sets with an overload whose parameters are ALL defaulted (zero required arguments)
@@ -535,8 +612,13 @@ def shaped(r, name, n, d, head=None, cls=None, prefix="p", out_at=None, result=N
         else:
             kind = r.choice(["int", "long", "double", "bool", "cstr", "string", "short"])
         params.append(P(kind, "%s%d" % (prefix, i), default=default_for(kind, i) if i >= d else None))
+        if kind in ("ilist", "dlist"):
+            params.append(P("implied", "%sn%d" % (prefix, i), of="%s%d" % (prefix, i)))
     if out_at is not None and out_at <= min(d, n):
-        params.insert(out_at, P("int_out", prefix + "o"))
+        at = out_at
+        if at < len(params) and params[at].kind == "implied":
+            at += 1
+        params.insert(at, P("int_out", prefix + "o"))
     res = result or r.choice(["void", "int", "double", "bool"])
     return F(name, res, params, cls=cls)
 
@@ -548,8 +630,14 @@ def shape_of(f):
     return (len(vis), nd, first)
 
 
+# the wrapper passes its own non-const locals: `const int *` and `int *` parameters are the same to overload resolution
+CXX_CLASS = {"ilist": "int*", "ilist_inout": "int*", "int_out": "int*", "int_inout": "int*", "idim_out": "int*",
+             "dlist": "double*", "double_out": "double*", "double_inout": "double*", "ddim_out": "double*",
+             "implied": "int", "enum": "int"}
+
+
 def _cxx_window(f):
-    types = [p.kind for p in f.params]
+    types = [CXX_CLASS.get(p.kind, p.kind) for p in f.params]
     req = sum(1 for p in f.params if p.default is None)
     return types, req
 
@@ -578,7 +666,8 @@ def overload_set(r, base, shapes, cls=None, label_prefix=""):
             elif d == 0:
                 head = r.choice([h for h in ["int", "double", "long"] if h not in used] or ["long"])
             else:
-                head = r.choice([h for h in ["string", "bool", "cstr", "int", "double"] if h not in used] or ["short"])
+                pool = ["string", "bool", "cstr", "int", "double", "ilist", "dlist"] + (["vec", "dvec"] if d == n else [])
+                head = r.choice([h for h in pool if h not in used] or ["short"])
             out_at = r.randrange(0, min(d, n) + 1) if r.random() < 0.25 else None
             f = shaped(r, base, n, d, head=head, cls=cls, prefix="p" if shared else "pqrs"[k % 4], out_at=out_at)
             if all(unambiguous(f, g) for g in fs):
@@ -627,6 +716,8 @@ def random_cxx(r, name, nfunc=8):
     fs = []
     for i in range(nfunc):
         fs.append(rand_function(r, "c++", r.choice(["alpha", "Beta", "gam_ma"]) + str(i), cls_arg=C))
+    for i in range(3):
+        fs.append(rand_dim_function(r, "c++", "dim%d" % i))
     # overload sets of size 2..3 with random shapes (free functions and one method set)
     for k in range(3):
         shapes = [r.choice(GRID) for _ in range(r.choice([2, 2, 3]))]
@@ -661,4 +752,5 @@ def _rename(f):
 
 def random_c(r, name, nfunc=8):
     fs = [rand_function(r, "c", "cf%d" % i) for i in range(nfunc)]
+    fs += [rand_dim_function(r, "c", "cdim%d" % i) for i in range(2)]
     return PyLib(name, "c", fs, {}, enum=False)
